@@ -247,6 +247,74 @@ pub fn run(run: &mut Run) {
         }
     }
 
+    // (e) literal extremes: every escape form at every boundary in several quoting styles, and
+    //     numeric literals of every length around the range limits (visitor-level decoding must
+    //     fail with a positioned error, never unwind)
+    run.sub("literals");
+    {
+        let styles: [(&str, &str); 8] = [("\"", "\""), ("'", "'"), ("\"\"\"", "\"\"\""), ("'''", "'''"), ("b\"", "\""), ("b'''", "'''"), ("r\"", "\""), ("br'", "'")];
+        for (si, (open, close)) in styles.iter().enumerate() {
+            let mut bodies: Vec<String> = vec![];
+            for v in 0..=0xffffu32 {
+                // every \u value in the first style; boundary neighbourhoods in the others
+                let near = |x: u32| (v as i64 - x as i64).abs() <= 2;
+                if si == 0 || v % 0x400 == 0 || near(0x7f) || near(0xff) || near(0x7ff) || near(0xd7ff) || near(0xdfff) || near(0xffff) {
+                    bodies.push(format!("\\u{:04x}", v));
+                }
+            }
+            for plane in 0..=17u32 {
+                for d in -2i64..=2 {
+                    let p = plane as i64 * 0x10000 + d;
+                    if p >= 0 {
+                        bodies.push(format!("\\U{:08x}", p));
+                    }
+                }
+            }
+            for v in [0xd800u32, 0xdbff, 0xdc00, 0xdfff, 0x110000, 0x7fffffff, 0x80000000, 0xffffffff] {
+                bodies.push(format!("\\U{:08x}", v));
+                bodies.push(format!("a\\U{:08X}b", v));
+            }
+            for v in 0..=255u32 {
+                bodies.push(format!("\\x{:02x}", v));
+                bodies.push(format!("\\X{:02X}", v));
+            }
+            for v in 0..512u32 {
+                bodies.push(format!("\\{:03o}", v));
+            }
+            for c in 0x20u8..0x7f {
+                bodies.push(format!("\\{}", c as char));
+            }
+            for t in ["\\x4", "\\u12", "\\U0001", "\\0", "\\", "\\xzz", "\u{e4}\\n", "\u{1f600}\\u00e4\u{e4}", "\\ud800\\udc00"] {
+                bodies.push(t.to_string());
+            }
+            for b in bodies {
+                if run.take() {
+                    judge(run, "literals", &format!("{}{}{}", open, b, close));
+                }
+            }
+        }
+        // numeric literals of growing length
+        for n in 1..=40usize {
+            for (pre, post) in [("", ""), ("-", ""), ("", "u"), ("0x", ""), ("-0x", ""), ("0x", "u"), ("", ".0"), ("0.", ""), ("", "e0"), ("1e", ""), ("1e-", ""), ("-1e", ""), (".", "")] {
+                for digit in ["9", "1", "0", "f", "7"] {
+                    if digit == "f" && !pre.contains("0x") {
+                        continue;
+                    }
+                    if run.take() {
+                        judge(run, "literals", &format!("{}{}{}", pre, digit.repeat(n), post));
+                    }
+                }
+            }
+        }
+        for e in 0..=400u32 {
+            for f in [format!("1e{}", e), format!("1e-{}", e), format!("9.9e{}", e), format!("-1.0E+{}", e)] {
+                if run.take() {
+                    judge(run, "literals", &f);
+                }
+            }
+        }
+    }
+
     // (d) nesting depth 1..32 of every nesting construct, balanced and with one closer removed
     run.sub("depth");
     let constructs: [(&str, &str, &str, &str); 14] = [
